@@ -46,8 +46,17 @@ CORE = [e1b.rule_projection_pairs, e1b.rule_scope_flags, e2c.rule_product_by_ord
         # exactly -- is structural: a wiring fault is an O(1) error in V, not an approximation error
         e7.rule_direct_solver, e7.rule_greens_function, e6.rule_projector, e6.rule_projector_call_sites, e8.rule_implicit_wiring,
         e7b.rule_kpm_wiring,
+        # ... and operator-valued (second-quantised) Hamiltonians: the element-wise solver defines V there, including the
+        # explicit anti-Hermitian completion of a fully diagonalised block that U† = W - V relies on
+        e7.rule_solve_scalar, e10.rule_binary_number_cancellation,
         # a table of computed values kept between element evaluations is sound only if its key pins what the value reads
-        e4.rule_memo_key]
+        e4.rule_memo_key,
+        # the series hold references to the user's arrays and to their own stored elements: an in-place update of either
+        # (a solver rescaling h_0, a helper accumulating into an element) changes H after parts of the result were derived from it
+        e4.rule_no_inplace_mutation]
+
+# C01-C04 are about Hermitian inputs: clauses of shared rules that only matter for hermitian=False are left to C05 / C14
+CORE_H = [partial(r, nonhermitian=False) if r is e11.rule_helpers else r for r in CORE]
 
 PROPS: dict[str, dict] = {}
 
@@ -63,7 +72,7 @@ def prop(pid, **kw):
 
 prop(
     "C01", level="proof", trusted_base=TB_E1, selftest=["algorithms", "block_diagonalization"],
-    rules=[main_e1, wf_main, diag_solver_real, *CORE],
+    rules=[main_e1, wf_main, diag_solver_real, *CORE_H],
     explanation=(
         "Every `with` block of algorithms.py::main is read from the current source and its defining equation is "
         "discharged as a polynomial identity in a free *-algebra (atoms H_0, H'_S, H'_R, W, V; opaque selected-part "
@@ -78,7 +87,7 @@ prop(
     "C02", level="proof", trusted_base=TB_E1, selftest=["algorithms", "series", "number_ordered_form"],
     # `U† is the adjoint of U`, `H_tilde is Hermitian` are statements about what Dagger does to the values: for operator-valued
     # (second-quantised) problems that is NumberOrderedForm's adjoint / sum / negation structure
-    rules=[main_e1, wf_main, diag_solver_real, *CORE, e10.rule_linear_structure],
+    rules=[main_e1, wf_main, diag_solver_real, *CORE_H, e10.rule_linear_structure],
     explanation=(
         "Unitarity (1+U'†)(1+U') = (1+U')(1+U'†) = 1, adj(U) = U†, Hermiticity of U†HU and of every series/product "
         "carrying a hermitian/antihermitian marker are obligations of the E1 certificate of `main`; the Hermitian "
@@ -91,7 +100,7 @@ prop(
 
 prop(
     "C03", level="proof", trusted_base=TB_E1, selftest=["algorithms"],
-    rules=[main_e1, wf_main, diag_solver_real, *CORE],
+    rules=[main_e1, wf_main, diag_solver_real, *CORE_H],
     explanation=(
         "Gauge obligations of the E1 certificate: the anti-Hermitian part of the interpretation of U' is V, S[V] = 0 "
         "(V has only an `offdiagonal` branch), W is Hermitian; together with the well-founded (acyclic same-order) "
@@ -101,7 +110,7 @@ prop(
 
 prop(
     "C04", level="proof", trusted_base=TB_E1, selftest=["algorithms"],
-    rules=[main_e1, wf_main, diag_solver_real, *CORE],
+    rules=[main_e1, wf_main, diag_solver_real, *CORE_H],
     explanation=(
         "Decided through its structural cause only: H_tilde = S[U†HU] with U unitary and R[U†HU] = 0 (E1 obligations "
         "for H_tilde, B, unitarity), and full diagonalisation keeps exactly the degenerate pairs (to_keep = equal_eigs). "
@@ -137,7 +146,7 @@ prop(
 
 prop(
     "C07", level="other", selftest=["block_diagonalization", "second_quantization", "number_ordered_form", "algorithms"],
-    rules=[main_e1, wf_main, e12.rule_operator_mode, e2b.rule_taylor, e7.rule_solve_scalar, e1b.rule_projection_pairs, e1b.rule_scope_flags,
+    rules=[main_e1, wf_main, e12.rule_operator_mode, e2b.rule_taylor, e7.rule_solve_scalar, e10.rule_binary_number_cancellation, e1b.rule_projection_pairs, e1b.rule_scope_flags,
            e10.rule_operator_order, e10.rule_fermion_crossing, e10.rule_shift_table, e10.rule_linear_structure, e10.rule_number_operator_power, e10.rule_operator_sort_consistency,
            e2c.rule_product_by_order, e2c.rule_cauchy_wiring, e2c.rule_adjoint_fill, tv_shipped, e9.rule_runtime_support, e9.rule_exec_scope, e9.rule_adjoint_binding, start_data_shipped,
            e11.rule_helpers, e4.rule_loop_carried_state, e4.rule_memo_key],
@@ -183,7 +192,10 @@ prop(
            e2c.rule_cauchy_wiring, e2c.rule_product_by_order,  # declared products and their Hermiticity shortcut
            e9.rule_deletion_safe, e9.rule_exec_scope, e9.rule_adjoint_binding, e9.rule_start_data,
            # the compiled form is a function of the definition: a memo of the compiler must be keyed by what it compiles
-           memo_key_parsing],
+           memo_key_parsing,
+           # ... and the value of an element must not depend on what was requested before: the helpers the generated code calls and
+           # the series machinery must not update the values they are handed (a running result may BE a stored element)
+           partial(e4.rule_no_inplace_mutation, modules=("algorithm_parsing", "series"))],
     explanation=(
         "The repository's own _parse_algorithm is queried (subprocess, tree under analysis) for the generated "
         "series_eval ASTs of `main`, `nonhermitian` and the documented example; each is interpreted abstractly per "
@@ -210,7 +222,8 @@ prop(
 
 prop(
     "C11", level="other", selftest=["series"],
-    rules=[e3.rule_typestate, e3.rule_memo_owner, e4.rule_closure_state, shared_check_memo, e3.rule_exceptions_propagate],
+    rules=[e3.rule_typestate, e3.rule_memo_owner, e4.rule_closure_state, shared_check_memo, e3.rule_exceptions_propagate,
+           e9.rule_generated_exceptions],
     explanation=(
         "Typestate of the in-flight marker on the control-flow graph (with exceptional edges) of the one function that "
         "owns it: from the store of PENDING every path to a normal or exceptional exit passes a store of the result or "
@@ -222,7 +235,10 @@ prop(
 prop(
     "C12", level="other", selftest=["series", "block_diagonalization"],
     rules=[e2b.rule_definition_time_lazy, e2b.rule_order_preserving_evals, e2c.rule_product_by_order, wf_all,
-           e3.rule_typestate, e3.rule_memo_owner, tv_shipped],
+           e3.rule_typestate, e3.rule_memo_owner, tv_shipped,
+           # "for any request schedule": an eval closure that records something while it runs and consults it later makes the value
+           # at one order depend on which other orders were requested before
+           e4.rule_closure_state],
     explanation=(
         "Dependency cone decided structurally: definition-time code subscripts a BlockSeries only at the zeroth order; "
         "every hand-written eval closure loads other series at its own orders (or a guarded lower one); "
@@ -264,7 +280,7 @@ prop(
 prop(
     "C16", level="other", selftest=["block_diagonalization", "linalg", "second_quantization", "kpm"],
     rules=[e7b.rule_diagonal_solver, e7b.rule_shared_eigenvalue_check, e7.rule_direct_solver, e7.rule_greens_function,
-           e7.rule_solve_scalar, e7.rule_kpm_structure, e6.rule_projector, lossless_solvers, helpers_solvers],
+           e7.rule_solve_scalar, e10.rule_binary_number_cancellation, e7.rule_kpm_structure, e6.rule_projector, lossless_solvers, helpers_solvers],
     explanation=(
         "Sibling cross-check of the solver implementations against the contract H0_i T - T H0_j = Y: orientation "
         "E_i[row] - E_j[col], positive sign and zero-guard of each of the five branches of the diagonal solver; sign / "
